@@ -524,7 +524,7 @@ def export_obj_str(surface, **kwargs):
             srf.sample_size_v = surface.sample_size_v
 
         # Tessellate surface
-        srf.tessellate(vertex_spacing=vertex_spacing)
+        srf.tessellate(vertex_spacing=vertex_spacing, force=True)
         vertices = srf.tessellator.vertices
         triangles = srf.tessellator.faces
 
@@ -624,7 +624,7 @@ def export_stl_str(surface, **kwargs):
             srf.sample_size_v = surface.sample_size_v
 
         # Tessellate surface
-        srf.tessellate(vertex_spacing=vertex_spacing)
+        srf.tessellate(vertex_spacing=vertex_spacing, force=True)
         triangles = srf.tessellator.faces
 
         triangles_list += triangles
@@ -707,7 +707,7 @@ def export_off_str(surface, **kwargs):
             srf.sample_size_v = surface.sample_size_v
 
         # Tessellate surface
-        srf.tessellate(vertex_spacing=vertex_spacing)
+        srf.tessellate(vertex_spacing=vertex_spacing, force=True)
         vertices = srf.tessellator.vertices
         triangles = srf.tessellator.faces
 
